@@ -262,7 +262,7 @@ package route
 //@   loop 1 invariant fresh(binds) && buf != nil && fresh(buf) && countGroups(buf.content) == len(binds)
 
 //@ func newLeaf
-//@   props C08
+//@   props C08 C01
 //@   requires treeWF() && isTree(parent) && routeWF(r) && optLast(r) && s != nil && h != nil
 //@   modifies Segment.str, Segment.strOnce.fired
 //@   ensures treeWF()
@@ -273,14 +273,19 @@ package route
 //@   loop 0 invariant forall a int, b int :: 0 <= a && a < b && b <= rangeindex ==> binds[a] != binds[b]
 //@   loop 0 invariant forall a int :: 0 <= a && a <= rangeindex ==> has(parentBindSet, binds[a])
 
+// some ancestor (or the tree itself) is a match-all subtree
+//@ define allAnc(t Tree) bool = t != nil && (style(t) == 4 || allAnc(nodeOf(t).parent))
+
 //@ func newTree
-//@   props C08
+//@   props C08 C01
 //@   requires treeWF() && isTree(parent) && s != nil
 //@   ensures treeWF()
+//@   ensures len(s.Elements) == 0 ==> result1 != nil
+//@   ensures result1 == nil && style(result0) == 4 ==> !old(allAnc(parent))
 //@   ensures result1 == nil ==> isTreeChild(result0) && fresh(result0)
 //@   ensures result1 == nil ==> nodeOf(result0).parent == parent && nodeOf(result0).segment == s && len(nodeOf(result0).subtrees) == 0 && len(nodeOf(result0).leaves) == 0
 //@   ensures result1 != nil ==> result0 == nil
-//@   loop 0 invariant treeWF() && (ancestor == nil || isTree(ancestor))
+//@   loop 0 invariant treeWF() && (ancestor == nil || isTree(ancestor)) && allAnc(parent) == allAnc(ancestor)
 //@   loop 1 invariant treeWF() && parentBindSet != nil && fresh(parentBindSet)
 //@   loop 1 invariant forall a int, b int :: 0 <= a && a < b && b <= rangeindex ==> binds[a] != binds[b]
 //@   loop 1 invariant forall a int :: 0 <= a && a <= rangeindex ==> has(parentBindSet, binds[a])
@@ -288,7 +293,7 @@ package route
 //@ define routeWF(r *Route) bool = r != nil && len(r.Segments) >= 1 && (forall k int :: 0 <= k && k < len(r.Segments) ==> r.Segments[k] != nil)
 
 //@ func addLeaf
-//@   props C08
+//@   props C08 C01
 //@   requires treeWF() && isTree(t) && routeWF(r) && optLast(r) && s != nil && h != nil
 //@   modifies baseTree.leaves, elems(type([]Leaf)), Segment.str, Segment.strOnce.fired, Route.str, Route.strOnce.fired
 //@   ensures treeWF()
@@ -298,7 +303,7 @@ package route
 //@   loop 1 invariant treeWF() && 0 <= i && i <= len(leaves)
 
 //@ func addSubtree
-//@   props C08
+//@   props C08 C01
 //@   requires treeWF() && isTree(t) && routeWF(r) && h != nil && 0 <= next && next + 1 < len(r.Segments)
 //@   requires forall k int :: 0 <= k && k <= next ==> !r.Segments[k].Optional
 //@   modifies baseTree.leaves, baseTree.subtrees, elems(type([]Leaf)), elems(type([]Tree)), Segment.str, Segment.strOnce.fired, Route.str, Route.strOnce.fired
@@ -309,7 +314,8 @@ package route
 //@   loop 1 invariant treeWF() && 0 <= i && i <= len(subtrees)
 
 //@ func addNextSegment
-//@   props C08
+//@   props C08 C01
+//@   ensures len(r.Segments) > next + 1 && r.Segments[next].Optional ==> result1 != nil
 //@   requires treeWF() && isTree(t) && routeWF(r) && h != nil && 0 <= next && next < len(r.Segments)
 //@   requires forall k int :: 0 <= k && k < next ==> !r.Segments[k].Optional
 //@   modifies baseTree.leaves, baseTree.subtrees, elems(type([]Leaf)), elems(type([]Tree)), Segment.str, Segment.strOnce.fired, Route.str, Route.strOnce.fired
@@ -318,7 +324,7 @@ package route
 //@   ensures result1 != nil ==> result0 == nil
 
 //@ func AddRoute
-//@   props C08
+//@   props C08 C01
 //@   requires treeWF() && isTree(t) && h != nil && (r == nil || len(r.Segments) == 0 || routeWF(r))
 //@   modifies baseTree.leaves, baseTree.subtrees, elems(type([]Leaf)), elems(type([]Tree)), Segment.str, Segment.strOnce.fired, Route.str, Route.strOnce.fired
 //@   ensures treeWF()
